@@ -16,7 +16,13 @@ use std::io::{Error, Read};
 ///
 pub struct Parser<Lexer> {
     lexer: Lexer,
+    /// Current nesting depth of parenthesised groups
+    depth: usize,
 }
+
+/// The deepest nesting of parenthesised groups the parser accepts.
+/// Parsing is recursive, so the depth has to be bounded by the stack.
+pub const MAX_NESTING_DEPTH: usize = 64;
 
 // Internal constant tokens to be used when comparing against current tokens
 lazy_static! {
@@ -27,7 +33,7 @@ lazy_static! {
 impl<'a, R: Read> Parser<Lexer<Scanner<'a, R>>> {
     pub(crate) fn make(input: &'a mut R) -> Result<Self, Error> {
         let lexer = Lexer::make(input)?;
-        Ok(Self { lexer })
+        Ok(Self { lexer, depth: 0 })
     }
 
     pub fn parse(&mut self) -> Result<Or, Error> {
@@ -134,6 +140,16 @@ impl<'a, R: Read> Parser<Lexer<Scanner<'a, R>>> {
     }
 
     fn parse_parens(&mut self) -> Result<Parens, Error> {
+        if self.depth >= MAX_NESTING_DEPTH {
+            return self.make_generic_err("Filter nesting is too deep.");
+        }
+        self.depth += 1;
+        let parens = self.parse_nested_parens();
+        self.depth -= 1;
+        parens
+    }
+
+    fn parse_nested_parens(&mut self) -> Result<Parens, Error> {
         self.lexer.read()?;
         let or = self.parse_or()?;
         if self.lexer.cur.value != Some(TokenValue::RightParens) {
